@@ -16,6 +16,7 @@ const xmlNsURI = "http://www.w3.org/XML/1998/namespace"
 var codeToStr = map[string]string{
 	"sp": " ", "tab": "\t", "nl": "\n", "cr": "\r",
 	"nbsp": " ", "w2": "é", "w3": "中", "w4": "😀", "cm": "́", "wsl": "Ġ",
+	"bom":   "\ufeff", // U+FEFF inside a document is an ordinary character (ZERO WIDTH NO-BREAK SPACE), not a byte order mark
 	"XMLNS": xmlNsURI,
 	"Z400":  z400, // a run of 400 zeros: "1" followed by it is a numeral far too large for a double
 }
